@@ -1,8 +1,26 @@
 import Req.Props.C04Split
 import Req.H1.ErrClass
+import Req.H1.AliasMime
 import Req.Lemmas.H1Line
 /-!
 C04 round 5 — the incremental head line reader computes the whole-stream reader.
+
+The C04 theorems (`parse_deterministic_end`, `framing_*`, `parseHeadE_*` …) are about whole-stream
+functions (`readLineB`, `readContB`, `mimeLoopE`: "these bytes, then EOF").  The code reads
+incrementally: `bufio.Reader` of `B` bytes filled segment by segment, `ReadLine` fragments glued by
+`readLineSlice`, a CR put back at a full buffer, `ReadByte`/`UnreadByte` in `skipSpace`, a `Peek(2)`
+fast path, lines as views into the buffer.  Here the two are proved EQUAL, for every `B ≥ 2`
+(bufio: ≥ 16) and every clean script (any segmentation):
+
+* `readLineSliceLoop_whole` / `readLineSlice_whole` — the fragment loop = `readLineB B` (incl. the
+  CR put back when "\r\n" straddles the buffer end, and the corner `untermEOF`: an unterminated
+  last line that fills the buffer exactly is `io.EOF`); this is also the status-line read.
+* `skipSpace_whole` — `skipSpace` = `countOWS`; `contLoopV_whole` — continuation loop = `readContB`.
+* `continued_line_whole_stream` — `readContinuedLineSlice` of the code over the ALIASING reader =
+  `contSpec` (`readLineB` + colon check + `readContB`: the loop body of `mimeLoopE`), same rest.
+* `head_incremental_is_whole_stream` — `amimeLoop` (`readMIMEHeader`'s loop over the aliasing
+  reader) = `mimeLoopE B`: same header map, same error class, same unread rest.
+Helpers: `cutNL_splitLF`, `stripCR_eq`, `stripCR_append`, `untermEOF_fuel`, `readLineB_step`.
 -/
 namespace Req.Props.C04
 open Req.Proto Req.H1 Req.H1.BufLine Req.H1.BufAlias
@@ -232,7 +250,7 @@ theorem readLineB_step (B : Nat) (hB : 2 ≤ B) (s : Bytes) (hlen : B ≤ s.leng
         rw [this]; rfl
       | cons c1 t1 =>
         rw [hd] at hx
-        simp only [hx]
+        simp only []
         have hfuel := untermEOF_fuel B hB (c0 :: t0).length ((c1 :: t1).length + 1) (c1 :: t1)
           (by have := congrArg List.length hd; simp only [List.length_drop] at this; omega) (by omega)
         rw [hfuel]
@@ -450,5 +468,304 @@ theorem readLineSliceLoop_whole (B : Nat) (hB : 2 ≤ B) (f : Nat) (acc d : Byte
               obtain ⟨rfl, rfl⟩ := hq
               exact ⟨by rw [hs], hg1, hbytes⟩
             · intro hq; rw [hw] at hq; simp at hq
+
+theorem readLineSlice_whole (B : Nat) (hB : 2 ≤ B) (st : Rd) (hg : Good B st) :
+    (∀ l rest, readLineB B st.bytes = some (l, rest) →
+      (readLineSlice (plainReadLine B) none st).res = .ok l ∧
+      Good B (readLineSlice (plainReadLine B) none st).st ∧
+      (readLineSlice (plainReadLine B) none st).st.bytes = rest) ∧
+    (readLineB B st.bytes = none →
+      (readLineSlice (plainReadLine B) none st).res = .error (.src .eof) ∧
+      Good B (readLineSlice (plainReadLine B) none st).st ∧
+      (readLineSlice (plainReadLine B) none st).st.bytes = []) := by
+  have := readLineSliceLoop_whole B hB (st.bytes.length + 2) [] [] st hg (Nat.le_refl _)
+  simpa [readLineSlice] using this
+
+/-! ### `skipSpace` = `countOWS` -/
+
+theorem skipSpaceLoop_whole (B : Nat) (hB : 0 < B) (f : Nat) (acc : Bytes) (st : Rd) (hg : Good B st)
+    (hf : st.bytes.length + 1 ≤ f) :
+    (skipSpaceLoop B f acc st).1 = acc ++ st.bytes.take (countOWS st.bytes) ∧
+    (skipSpaceLoop B f acc st).2.bytes = st.bytes.drop (countOWS st.bytes) ∧
+    Good B (skipSpaceLoop B f acc st).2 := by
+  induction f generalizing acc st with
+  | zero => omega
+  | succ f ih =>
+    obtain ⟨hspec, hg1, hun⟩ := readByte_clean B hB st hg
+    unfold skipSpaceLoop
+    cases hrb : readByte B st with
+    | mk r st1 =>
+      rw [hrb] at hspec hg1 hun
+      simp only at hspec hg1 hun ⊢
+      cases hs : st.bytes with
+      | nil =>
+        rw [hs] at hspec
+        simp only [byteSpec, Prod.mk.injEq] at hspec
+        obtain ⟨rfl, hb1⟩ := hspec
+        simp only [countOWS, List.take_nil, List.append_nil, List.drop_nil]
+        exact ⟨trivial, hb1, hg1⟩
+      | cons c t =>
+        rw [hs] at hspec hf
+        simp only [byteSpec, Prod.mk.injEq] at hspec
+        obtain ⟨rfl, hb1⟩ := hspec
+        simp only
+        have hows : isSpTab c = isOWS c := rfl
+        by_cases hc : isOWS c = true
+        · rw [hows, if_pos hc]
+          have := ih (acc ++ [c]) st1 hg1 (by rw [hb1]; simp only [List.length_cons] at hf; omega)
+          rw [hb1] at this
+          simp only [countOWS, hc, if_true, List.take_succ_cons, List.drop_succ_cons]
+          simpa [List.append_assoc] using this
+        · rw [hows, if_neg hc]
+          simp only [countOWS, hc, Bool.false_eq_true, if_false, List.take_zero, List.append_nil, List.drop_zero]
+          exact ⟨trivial, by simp [Rd.bytes] at hb1 ⊢; exact hb1, hun c rfl⟩
+
+theorem skipSpace_whole (B : Nat) (hB : 0 < B) (st : Rd) (hg : Good B st) :
+    (skipSpace B st).1 = st.bytes.take (countOWS st.bytes) ∧
+    (skipSpace B st).2.bytes = st.bytes.drop (countOWS st.bytes) ∧
+    Good B (skipSpace B st).2 := by
+  have := skipSpaceLoop_whole B hB (st.bytes.length + 1) [] st hg (Nat.le_refl _)
+  simpa [skipSpace] using this
+
+theorem take_countOWS_isEmpty (s : Bytes) : (s.take (countOWS s)).isEmpty = decide (countOWS s = 0) := by
+  cases s with
+  | nil => simp [countOWS]
+  | cons c t =>
+    unfold countOWS
+    split <;> simp
+
+/-! ### continuation lines = `readContB` -/
+
+theorem contLoopV_whole (B : Nat) (hB : 2 ≤ B) (f : Nat) (acc : Bytes) (st : Rd) (hg : Good B st) :
+    (contLoopV B f acc st).1 = .ok (readContB B f acc st.bytes).1 ∧
+    (contLoopV B f acc st).2.bytes = (readContB B f acc st.bytes).2 ∧
+    Good B (contLoopV B f acc st).2 := by
+  induction f generalizing acc st with
+  | zero => exact ⟨rfl, rfl, hg⟩
+  | succ f ih =>
+    obtain ⟨hsk, hskb, hskg⟩ := skipSpace_whole B (by omega) st hg
+    unfold contLoopV readContB
+    cases hss : skipSpace B st with
+    | mk sk st1 =>
+      rw [hss] at hsk hskb hskg
+      simp only at hsk hskb hskg ⊢
+      rw [hsk, take_countOWS_isEmpty]
+      by_cases hn : countOWS st.bytes = 0
+      · simp only [hn, decide_true, if_true]
+        rw [hn] at hskb
+        exact ⟨by first | rfl | trivial, by simpa using hskb, hskg⟩
+      · simp only [hn, decide_false, Bool.false_eq_true, if_false]
+        obtain ⟨hw1, hw2⟩ := readLineSlice_whole B hB st1 hskg
+        rw [hskb] at hw1 hw2
+        cases hx : readLineB B (st.bytes.drop (countOWS st.bytes)) with
+        | none =>
+          obtain ⟨hr, hgg, hbb⟩ := hw2 hx
+          cases hq : readLineSlice (plainReadLine B) none st1 with
+          | mk res st2 dd =>
+            rw [hq] at hr hgg hbb
+            simp only at hr hgg hbb
+            subst hr
+            exact ⟨rfl, hbb, hgg⟩
+        | some p =>
+          obtain ⟨l, rest⟩ := p
+          obtain ⟨hr, hgg, hbb⟩ := hw1 l rest hx
+          cases hq : readLineSlice (plainReadLine B) none st1 with
+          | mk res st2 dd =>
+            rw [hq] at hr hgg hbb
+            simp only at hr hgg hbb
+            subst hr
+            simp only
+            have := ih (acc ++ [32] ++ trimOWS l) st2 hgg
+            rw [hbb] at this
+            exact this
+
+/-- `readContinuedLineSlice` as a function of the unread bytes — the body of `mimeLoopE`'s loop. -/
+def contSpec (B : Nat) (valid : Bytes → Bool) (s : Bytes) : ContRes × Bytes :=
+  match readLineB B s with
+  | none => (.err (.src .eof), [])
+  | some (l, rest) =>
+    if l.isEmpty then (.ok [], rest)
+    else if !valid l then (.invalid, rest)
+    else (.ok (readContB B (rest.length + 1) (trimOWS l) rest).1,
+          (readContB B (rest.length + 1) (trimOWS l) rest).2)
+
+theorem readContinuedSlow_whole (B : Nat) (hB : 2 ≤ B) (valid : Bytes → Bool) (st : Rd) (hg : Good B st) :
+    (readContinuedSlow B valid st).1 = (contSpec B valid st.bytes).1 ∧
+    (readContinuedSlow B valid st).2.bytes = (contSpec B valid st.bytes).2 ∧
+    Good B (readContinuedSlow B valid st).2 := by
+  obtain ⟨hw1, hw2⟩ := readLineSlice_whole B hB st hg
+  unfold readContinuedSlow contSpec
+  cases hx : readLineB B st.bytes with
+  | none =>
+    obtain ⟨hr, hgg, hbb⟩ := hw2 hx
+    cases hq : readLineSlice (plainReadLine B) none st with
+    | mk res st1 dd =>
+      rw [hq] at hr hgg hbb
+      simp only at hr hgg hbb
+      subst hr
+      exact ⟨rfl, hbb, hgg⟩
+  | some p =>
+    obtain ⟨l, rest⟩ := p
+    obtain ⟨hr, hgg, hbb⟩ := hw1 l rest hx
+    cases hq : readLineSlice (plainReadLine B) none st with
+    | mk res st1 dd =>
+      rw [hq] at hr hgg hbb
+      simp only at hr hgg hbb
+      subst hr
+      simp only
+      split
+      · exact ⟨rfl, hbb, hgg⟩
+      · split
+        · exact ⟨rfl, hbb, hgg⟩
+        · have := contLoopV_whole B hB (st1.bytes.length + 1) (trimOWS l) st1 hgg
+          rw [hbb] at this ⊢
+          exact this
+
+/-- **continued_line_whole_stream.** For every buffer size `B ≥ 2`, first-line check and aliasing
+reader over a clean script: `readContinuedLineSlice` of the code (array, views, fast path,
+fragments, put-backs — under whatever segmentation) returns, by content, exactly what the
+whole-stream model `readLineB` + `readContB` (the loop body of `mimeLoopE`) computes from the unread
+bytes, and leaves exactly its rest. -/
+theorem continued_line_whole_stream (B : Nat) (hB : 2 ≤ B) (valid : Bytes → Bool) (a : ARd)
+    (hg : Good B a.rd) :
+    (areadContinued B 1 valid a).1 = (contSpec B valid a.rd.bytes).1 ∧
+    (areadContinued B 1 valid a).2.rd.bytes = (contSpec B valid a.rd.bytes).2 ∧
+    Good B (areadContinued B 1 valid a).2.rd := by
+  obtain ⟨p1, q1⟩ := continued_line_alias_safe_slow B valid a
+  rw [p1, q1]
+  exact readContinuedSlow_whole B hB valid a.rd hg
+
+/-! ### the header block: `readMIMEHeader`'s loop over the aliasing reader = `mimeLoopE` -/
+
+theorem mem_dropWhile_of_not {p : UInt8 → Bool} {c : UInt8} (l : Bytes) (hc : c ∈ l) (hp : p c = false) :
+    c ∈ l.dropWhile p := by
+  induction l with
+  | nil => simp at hc
+  | cons x t ih =>
+    by_cases hx : p x = true
+    · rw [List.dropWhile_cons_of_pos hx]
+      rcases List.mem_cons.mp hc with rfl | h
+      · rw [hp] at hx; simp at hx
+      · exact ih h
+    · rw [List.dropWhile_cons_of_neg hx]; exact hc
+
+theorem trimOWS_ne_nil {l : Bytes} (h : l.contains 58 = true) : trimOWS l ≠ [] := by
+  have hm : (58 : UInt8) ∈ l := by simpa using h
+  have h1 := mem_dropWhile_of_not (p := isOWS) l hm (by decide)
+  have h2 := mem_dropWhile_of_not (p := isOWS) _ (List.mem_reverse.mpr h1) (by decide)
+  intro h0
+  unfold trimOWS at h0
+  have : (58 : UInt8) ∈ ((l.dropWhile isOWS).reverse.dropWhile isOWS).reverse := List.mem_reverse.mpr h2
+  rw [h0] at this
+  simp at this
+
+theorem readContB_ne_nil (B f : Nat) (acc s : Bytes) (h : acc ≠ []) : (readContB B f acc s).1 ≠ [] := by
+  induction f generalizing acc s with
+  | zero => exact h
+  | succ f ih =>
+    unfold readContB
+    simp only
+    split
+    · exact h
+    · split
+      · simp
+      · exact ih _ _ (by simp)
+
+/-- **head_incremental_is_whole_stream.** The header-block loop of the real reader (aliasing
+`bufio.Reader`, every buffer size `B ≥ 2`, every clean segmentation of the connection) computes the
+whole-stream model `mimeLoopE B` that the C04 theorems are stated about: same map, same error
+class, same unread rest. -/
+theorem head_incremental_is_whole_stream (B : Nat) (hB : 2 ≤ B) (f : Nat) (m : HeaderMap) (a : ARd)
+    (hg : Good B a.rd) :
+    (match amimeLoop B f m a with
+      | .ok (m', a') => Except.ok (m', a'.rd.bytes)
+      | .error e => Except.error e) = mimeLoopE B f m a.rd.bytes := by
+  induction f generalizing m a with
+  | zero => rfl
+  | succ f ih =>
+    obtain ⟨h1, h2, h3⟩ := continued_line_whole_stream B hB (fun l => l.contains 58) a hg
+    unfold amimeLoop mimeLoopE
+    unfold contSpec at h1 h2
+    cases hr : areadContinued B 1 (fun l => l.contains 58) a with
+    | mk r a1 =>
+      rw [hr] at h1 h2 h3
+      simp only at h1 h2 h3
+      cases hx : readLineB B a.rd.bytes with
+      | none =>
+        rw [hx] at h1 h2
+        simp only at h1 h2
+        subst h1
+        rfl
+      | some p =>
+        obtain ⟨l, rest⟩ := p
+        rw [hx] at h1 h2
+        simp only at h1 h2 ⊢
+        by_cases hl : l.isEmpty = true
+        · rw [if_pos hl] at h1 h2
+          simp only at h1 h2
+          subst h1
+          simp only [hl, if_true, List.isEmpty_nil, h2]
+        · rw [if_neg hl] at h1 h2
+          simp only [hl, Bool.false_eq_true, if_false]
+          by_cases hv : l.contains 58 = true
+          · have hv' : (!l.contains 58) = false := by rw [hv]; rfl
+            rw [hv'] at h1 h2
+            simp only [Bool.false_eq_true, if_false] at h1 h2
+            subst h1
+            have hne := readContB_ne_nil B (rest.length + 1) (trimOWS l) rest (trimOWS_ne_nil hv)
+            have hne' : (readContB B (rest.length + 1) (trimOWS l) rest).1.isEmpty = false := by
+              cases hq : (readContB B (rest.length + 1) (trimOWS l) rest).1 with
+              | nil => exact absurd hq hne
+              | cons _ _ => rfl
+            simp only [hv', Bool.false_eq_true, if_false, hne']
+            cases hadd : addHeaderLine m (readContB B (rest.length + 1) (trimOWS l) rest).1 with
+            | none => rfl
+            | some m' =>
+              simp only
+              have := ih m' a1 h3
+              rw [h2] at this
+              exact this
+          · have hv0 : l.contains 58 = false := by
+              cases h : l.contains 58 with
+              | false => rfl
+              | true => exact absurd h hv
+            have hv' : (!l.contains 58) = true := by rw [hv0]; rfl
+            rw [hv'] at h1 h2
+            simp only [if_true] at h1 h2
+            subst h1
+            simp only [hv', if_true]
+
+/-- The status line is read by the same `readLineSlice`: `_readResponse`'s first line. -/
+theorem status_line_whole_stream (B : Nat) (hB : 2 ≤ B) (a : ARd) (hg : Good B a.rd)
+    (l rest : Bytes) (h : readLineB B a.rd.bytes = some (l, rest)) :
+    resGet (areadLineSlice B a).2 (areadLineSlice B a).1 = .ok l ∧
+    (areadLineSlice B a).2.rd.bytes = rest := by
+  obtain ⟨g1, g2⟩ := readLineSlice_view B a
+  obtain ⟨hw, _⟩ := readLineSlice_whole B hB a.rd hg
+  obtain ⟨hr, _, hb⟩ := hw l rest h
+  rw [g2, g1]
+  exact ⟨hr, hb⟩
+
+/-! ### non-vacuity -/
+
+/-- "K: v\r\n w\r\n\r\nR" cut into 1-byte segments, 16-byte buffer: one header `K: v w`, rest "R". -/
+def oneByteSegs : ARd := ARd.init 16
+  ([75, 58, 32, 118, 13, 10, 32, 119, 13, 10, 13, 10, 82].map fun b => (⟨[b], none⟩ : Chunk))
+
+example : Good 16 oneByteSegs.rd := good_ofSrc 16 _ (by unfold Clean; decide)
+
+set_option maxRecDepth 100000 in
+example : (match amimeLoop 16 20 [] oneByteSegs with
+    | .ok (m, a) => some (m, a.rd.bytes)
+    | .error _ => none) = some ([([75], [[118, 32, 119]])], [82]) := by decide
+
+set_option maxRecDepth 100000 in
+example : (match mimeLoopE 16 20 [] [75, 58, 32, 118, 13, 10, 32, 119, 13, 10, 13, 10, 82] with
+    | .ok p => some p
+    | .error _ => none) = some ([([75], [[118, 32, 119]])], [82]) := by decide
+
+/-- the B-dependent corner is part of the equality: 16 unterminated bytes, B = 16 → `io.EOF`. -/
+example : readLineB 16 (List.replicate 16 120) = none ∧ (readLineB 17 (List.replicate 16 120)).isSome := by
+  decide
 
 end Req.Props.C04
